@@ -194,81 +194,150 @@ fn has_taglike(bytes: &[u8], names: &[String]) -> bool {
 /// element the filters look for*: raw-text / comment / CDATA content without one is named `...-plain`
 /// and is never expected to change the output, so a regression there is not covered by the known
 /// signatures.
+#[derive(Debug, Clone)]
+pub struct Region {
+    /// "rawtext", "comment" or "cdata"
+    pub kind: &'static str,
+    pub tag: String,
+    /// cut positions p with start <= p < end (rawtext) / start < p < end (comment, cdata) are inside the construct
+    pub start: usize,
+    pub end: usize,
+    pub content_start: usize,
+    pub content_end: usize,
+}
+
+fn find_from(hay: &[u8], from: usize, needle: &[u8]) -> Option<usize> {
+    if needle.is_empty() || from >= hay.len() {
+        return None;
+    }
+    hay[from..].windows(needle.len()).position(|w| w == needle).map(|i| i + from)
+}
+
+/// Lexical regions of a document computed by a small scanner of the harness's own (NOT the library's
+/// tokenizer, so that a defect of the tokenizer cannot change how a violation is named): comments,
+/// CDATA sections and raw-text elements with their end tags ("</name" followed by white space, '/' or '>',
+/// case-insensitively).
+pub fn lex_regions(body: &[u8]) -> Vec<Region> {
+    let lower: Vec<u8> = body.iter().map(|b| b.to_ascii_lowercase()).collect();
+    let n = body.len();
+    let mut out = Vec::new();
+    let mut i = 0;
+    while i < n {
+        if body[i] != b'<' {
+            i += 1;
+            continue;
+        }
+        if body[i..].starts_with(b"<!--") {
+            let (content_end, end) = match find_from(body, i + 4, b"-->") {
+                Some(j) => (j, j + 3),
+                None => (n, n),
+            };
+            out.push(Region { kind: "comment", tag: String::new(), start: i, end, content_start: (i + 4).min(n), content_end });
+            i = end.max(i + 1);
+            continue;
+        }
+        if body[i..].starts_with(b"<![CDATA[") {
+            let (content_end, end) = match find_from(body, i + 9, b"]]>") {
+                Some(j) => (j, j + 3),
+                None => (n, n),
+            };
+            out.push(Region { kind: "cdata", tag: String::new(), start: i, end, content_start: (i + 9).min(n), content_end });
+            i = end.max(i + 1);
+            continue;
+        }
+        if i + 1 < n && body[i + 1].is_ascii_alphabetic() {
+            let mut j = i + 1;
+            while j < n && (lower[j].is_ascii_alphanumeric()) {
+                j += 1;
+            }
+            let name = String::from_utf8_lossy(&lower[i + 1..j]).to_string();
+            // end of the start tag, quotes respected
+            let mut k = j;
+            let mut quote: Option<u8> = None;
+            while k < n {
+                match quote {
+                    Some(q) => {
+                        if body[k] == q {
+                            quote = None;
+                        }
+                    }
+                    None => {
+                        if body[k] == b'"' || body[k] == b'\'' {
+                            quote = Some(body[k]);
+                        } else if body[k] == b'>' {
+                            break;
+                        }
+                    }
+                }
+                k += 1;
+            }
+            let tag_end = (k + 1).min(n);
+            if k < n && RAW_TEXT_TAGS.contains(&name.as_str()) {
+                let content_start = tag_end;
+                let mut content_end = n;
+                let mut end = n;
+                if name != "plaintext" {
+                    let needle = format!("</{name}");
+                    let mut from = content_start;
+                    while let Some(pos) = find_from(&lower, from, needle.as_bytes()) {
+                        let after = pos + needle.len();
+                        if after >= n || matches!(body[after], b' ' | b'\t' | b'\n' | b'\r' | 0x0c | b'/' | b'>') {
+                            content_end = pos;
+                            end = match find_from(body, after, b">") {
+                                Some(g) => g + 1,
+                                None => n,
+                            };
+                            break;
+                        }
+                        from = pos + 1;
+                    }
+                }
+                out.push(Region { kind: "rawtext", tag: name, start: content_start, end, content_start, content_end });
+                i = end.max(tag_end);
+                continue;
+            }
+            i = tag_end.max(i + 1);
+            continue;
+        }
+        i += 1;
+    }
+    out
+}
+
 pub fn classify_cut(body: &[u8], spans: &[Span], p: usize, names: &[String]) -> String {
     if p < body.len() && (body[p] & 0xC0) == 0x80 {
         return "cut-inside-utf8-sequence".to_string();
     }
-    // raw-text regions: from the end of the start tag of a raw-text element to the end of its end tag
-    // (or of its content when it is not closed). The content is held back and re-tokenised together with
-    // the next chunk, so every cut in this region makes the content lose its lexical context.
-    for (i, s) in spans.iter().enumerate() {
-        if s.kind == TokenType::StartTagToken {
-            if let Some(tag) = &s.tag {
-                if RAW_TEXT_TAGS.contains(&tag.as_str()) {
-                    let mut end = s.end;
-                    let mut j = i + 1;
-                    if j < spans.len() && spans[j].kind == TokenType::TextToken && spans[j].raw_text_of.is_some() {
-                        end = spans[j].end;
-                        j += 1;
-                    }
-                    if j < spans.len() && spans[j].kind == TokenType::EndTagToken && spans[j].tag.as_deref() == Some(tag.as_str()) && end > s.end {
-                        end = spans[j].end;
-                    }
-                    if s.end <= p && p < end && end > s.end {
-                        let content_end = if i + 1 < spans.len() && spans[i + 1].kind == TokenType::TextToken && spans[i + 1].raw_text_of.is_some() { spans[i + 1].end } else { s.end };
-                        return if has_taglike(&body[s.end..content_end], names) { format!("cut-inside-rawtext({tag})") } else { format!("cut-inside-rawtext-plain({tag})") };
-                    }
-                }
-            }
+    // comments, CDATA and raw-text elements: from the harness's own scanner. The content is held back and
+    // re-tokenised together with the next chunk, so every cut in such a region makes the content lose its
+    // lexical context; that only matters to a filter when the content contains a tag it looks for.
+    for r in lex_regions(body) {
+        let inside = match r.kind {
+            "rawtext" => r.start <= p && p < r.end && r.end > r.start,
+            _ => r.start < p && p < r.end,
+        };
+        if inside {
+            let relevant = has_taglike(&body[r.content_start.min(body.len())..r.content_end.min(body.len()).max(r.content_start.min(body.len()))], names);
+            let base = match r.kind {
+                "rawtext" => format!("cut-inside-rawtext{}({})", if relevant { "" } else { "-plain" }, r.tag),
+                "comment" => format!("cut-inside-comment{}", if relevant { "" } else { "-plain" }),
+                _ => format!("cut-inside-cdata{}", if relevant { "" } else { "-plain" }),
+            };
+            return base;
         }
     }
-    for (i, s) in spans.iter().enumerate() {
+    // everything else is never an expected context: named from the one-chunk tokenisation
+    for s in spans.iter() {
         if s.start < p && p < s.end {
             return match s.kind {
-                TokenType::TextToken => match &s.raw_text_of {
-                    Some(tag) => {
-                        if has_taglike(&body[s.start..s.end], names) {
-                            format!("cut-inside-rawtext({tag})")
-                        } else {
-                            format!("cut-inside-rawtext-plain({tag})")
-                        }
-                    }
-                    None => {
-                        if body[s.start..s.end].starts_with(b"<![CDATA[") {
-                            if has_taglike(&body[s.start + 2..s.end], names) {
-                                "cut-inside-cdata".to_string()
-                            } else {
-                                "cut-inside-cdata-plain".to_string()
-                            }
-                        } else {
-                            "cut-inside-text".to_string()
-                        }
-                    }
-                },
-                TokenType::CommentToken => {
-                    let raw = &body[s.start..s.end];
-                    let plain = raw.len() < 2 || !has_taglike(&raw[2..], names);
-                    if raw.starts_with(b"<![CDATA[") {
-                        if plain { "cut-inside-cdata-plain".to_string() } else { "cut-inside-cdata".to_string() }
-                    } else if plain {
-                        "cut-inside-comment-plain".to_string()
-                    } else {
-                        "cut-inside-comment".to_string()
-                    }
-                }
+                TokenType::TextToken => "cut-inside-text".to_string(),
+                TokenType::CommentToken => "cut-inside-other-markup-declaration".to_string(),
                 TokenType::DoctypeToken => "cut-inside-doctype".to_string(),
                 TokenType::ErrorToken => "cut-inside-unterminated-tail".to_string(),
                 _ => "cut-inside-tag".to_string(),
             };
         }
         if s.start == p {
-            // boundary: directly after the start tag of a raw-text element the following content loses its context
-            if s.kind == TokenType::TextToken {
-                if let Some(tag) = &s.raw_text_of {
-                    return if has_taglike(&body[s.start..s.end], names) { format!("cut-inside-rawtext({tag})") } else { format!("cut-inside-rawtext-plain({tag})") };
-                }
-            }
-            let _ = i;
             return "cut-between-tokens".to_string();
         }
     }
